@@ -13,6 +13,10 @@
 EXTENDS Integers, Sequences, FiniteSets, TLC
 
 Null == <<>>
+\* an option given on the command line as the empty text: "explicitly nothing" - it outranks the lower sources and
+\* the effective value is "not set" (this is how `--ofxhome ""` suppresses the OFX Home lookup)
+Blank == <<0>>
+Norm(v) == IF v = Blank THEN Null ELSE v
 First(seq) == LET S == {i \in 1..Len(seq) : seq[i] # Null} IN
               IF S = {} THEN Null ELSE seq[CHOOSE i \in S : \A j \in S : i <= j]
 Get(tbl, key, opt) == IF key \in DOMAIN tbl /\ opt \in DOMAIN tbl[key] THEN tbl[key][opt] ELSE Null
@@ -28,8 +32,8 @@ FromHome(srv, cli, file, fidb, home, dflt, opt) ==
 
 \* command line > user file > FI database > OFX Home > default, independently for each option
 Effective(srv, cli, file, fidb, home, dflt, opt) ==
-  First(<<Get([c |-> cli], "c", opt), Get(file, srv, opt), Get(fidb, srv, opt),
-          FromHome(srv, cli, file, fidb, home, dflt, opt), Get([d |-> dflt], "d", opt)>>)
+  Norm(First(<<Get([c |-> cli], "c", opt), Get(file, srv, opt), Get(fidb, srv, opt),
+          FromHome(srv, cli, file, fidb, home, dflt, opt), Get([d |-> dflt], "d", opt)>>))
 
 \* what the next run sees without command-line options
 NoCli == [x \in {} |-> Null]
